@@ -119,6 +119,17 @@ def work(item):
             if any(k == "s" and (a is None or (isinstance(a, str) and any(ord(ch) > 126 or ord(ch) < 32 for ch in a))) for k, a in zip(kinds, args)) or any(a == "cNULL" for a in args):
                 continue
             plan.append((fn, kinds, args))
+    # text a Java caller can write and a C caller sees as UTF-8 bytes: digits and letters outside ASCII are not part of the formula grammar on either side
+    for fn in fns:
+        if fn in ("CompoundParser", "CS_Total_CP", "SymbolToAtomicNumber", "Refractive_Index_Re"):
+            kinds0 = apigen.arg_kinds(desc[fn])
+            for s in ("H\uff12O", "H\u0662O", "Ca5(PO\u09674)3F", "O\uff10.5", "Fe\u2082O\u2083", "\u0421u", "Si\u00b2"):
+                if fn == "CompoundParser" or fn == "SymbolToAtomicNumber":
+                    plan.append((fn, kinds0, [s]))
+                elif fn == "CS_Total_CP":
+                    plan.append((fn, kinds0, [s, 10.0]))
+                else:
+                    plan.append((fn, kinds0, [s, 10.0, 2.0]))
     # neighbour runs: consecutive calls that differ in exactly one argument (base, variant, base, variant ...), so that anything one
     # implementation remembers between calls under an incomplete key shows up as a difference from the stateless other one
     rng = random.Random(mix(seed, "c19n", tag))
